@@ -54,6 +54,7 @@ RecFold(rec, ev, k) ==
   IF k > Len(ev) THEN rec
   ELSE LET x == ev[k]
            r2 == CASE x[1] = "Pop"   -> RecPut(rec, x[3], <<1, x[2]>>)
+                   [] x[1] = "Read" /\ t.reads -> RecPut(rec, x[3], <<5, x[2]>>)      \* only when the recorder was asked to record reads
                    [] x[1] = "Write" -> RecPut(rec, x[3], <<2, x[2]>>)
                    [] x[1] = "Inc"   -> RecPut(rec, x[3], <<3, x[2]>>)
                    [] x[1] = "Dec"   -> RecPut(rec, x[3], <<4, x[2]>>)
@@ -194,7 +195,7 @@ Usable(e) == /\ ("panic" \in DOMAIN e) => e.panic = ""
 NextT1(e) ==
   CASE e.ev = "new" -> [S |-> IF e.ok = 1 /\ e.M \in 1..100000 THEN NewState(EvCfg(e)) ELSE NewState(NoCfg),
                         stale |-> {}, rec |-> IF e.ok = 1 /\ e.M <= 4096 THEN EmptyRec(e.M) ELSE EmptyRec(1),
-                        bad |-> e.ok # 1]
+                        bad |-> e.ok # 1, reads |-> ("reads" \in DOMAIN e) /\ e.reads = 1]
     [] e.ev = "add" -> IF t.bad THEN t
                        ELSE LET X == AddW(S, [code |-> DecCode(e.code), start |-> e.start]) IN
                             [t EXCEPT !.S = IF "cycle" \in DOMAIN e THEN Logged(e, X, S.core) ELSE X]
@@ -213,7 +214,7 @@ NextT1(e) ==
 NextT(e) ==
   IF (e.ev \in {"spawn", "cycle", "reset", "run"} \/ (e.ev = "add" /\ "cycle" \in DOMAIN e)) /\ (t.bad \/ ~Usable(e)) THEN [t EXCEPT !.bad = TRUE] ELSE NextT1(e)
 
-Init == l = 1 /\ t = [S |-> NewState(NoCfg), stale |-> {}, rec |-> EmptyRec(1), bad |-> TRUE]
+Init == l = 1 /\ t = [S |-> NewState(NoCfg), stale |-> {}, rec |-> EmptyRec(1), bad |-> TRUE, reads |-> FALSE]
 Next == /\ l <= Len(Trace)
         /\ l' = l + 1
         /\ t' = NextT(Trace[l])
